@@ -72,6 +72,12 @@ def configs(tier):
                 continue
             out.append(dict(family='fpp-const', entry='fast_SIR', graph=g, I0=I0, R0=R0, weights='none', full=True, tmax='inf',
                             tags=['fpp-const', g] + (['R0'] if R0 else [])))
+            if g in ('K2', 'P3') and not R0 and len(I0) == 1:
+                # finite symbolic horizon: everything strictly before tmax still happens (a node infectious at tmax keeps transmitting until then)
+                out.append(dict(family='fpp-const', entry='fast_SIR', graph=g, I0=I0, R0=R0, weights='none', full=True, tmax='sym',
+                                tags=['fpp-const', g, 'tmax']))
+                out.append(dict(family='fpp-weighted', entry='fast_SIR', graph=g, I0=I0, R0=R0, weights='edge', full=True, tmax='sym', ties=False,
+                                tags=['fpp-weighted', g, 'tmax']))
             if graphs.ALL[g][1] and len(I0) == 1:
                 out.append(dict(family='fpp-weighted', entry='fast_SIR', graph=g, I0=I0, R0=R0, weights='edge', full=True, tmax='inf', ties=False,
                                 tags=['fpp-weighted', g] + (['R0'] if R0 else [])))
